@@ -7,6 +7,7 @@ import (
 	"math/rand"
 	"strings"
 	"sync"
+	"sync/atomic"
 	"time"
 
 	"verif/internal/gen/puppet"
@@ -202,6 +203,92 @@ func (sc *CScenario) maxLevel() int {
 	return m
 }
 
+// watchRacer calls Watch from its own goroutines in bursts that the scenario triggers just before it lets a reply, an error
+// or the context's end through, so that registrations race with publications and with the completion.
+type watchRacer struct {
+	corr  Corr
+	maxL  int
+	kick  []chan struct{}
+	stop  chan struct{}
+	wg    sync.WaitGroup
+	mu    sync.Mutex
+	bad   string
+	calls atomic.Int64
+	open  [][]racedWatch // per goroutine: channels that were still open when last looked at
+}
+
+type racedWatch struct {
+	lv int
+	ch <-chan struct{}
+}
+
+func newWatchRacer(c Corr, maxL, goroutines int) *watchRacer {
+	w := &watchRacer{corr: c, maxL: maxL, stop: make(chan struct{}), open: make([][]racedWatch, goroutines)}
+	for g := 0; g < goroutines; g++ {
+		k := make(chan struct{}, 1)
+		w.kick = append(w.kick, k)
+		w.wg.Add(1)
+		go func(g int) {
+			defer w.wg.Done()
+			for {
+				select {
+				case <-w.stop:
+					return
+				case <-k:
+				}
+				for it := 0; it < 3000; it++ {
+					lv := -1 + (it+g)%(w.maxL+3)
+					ch := c.Watch(lv)
+					w.calls.Add(1)
+					// Get takes the correctable's lock: the level it shows has been published completely
+					_, lvl, _ := c.Raw()
+					if closed(ch) {
+						continue
+					}
+					if lvl >= lv {
+						w.mu.Lock()
+						if w.bad == "" {
+							w.bad = fmt.Sprintf("Watch(%d) called concurrently with the publication is still open although Get shows level %d", lv, lvl)
+						}
+						w.mu.Unlock()
+					}
+					if len(w.open[g]) < 6000 {
+						w.open[g] = append(w.open[g], racedWatch{lv, ch})
+					}
+				}
+			}
+		}(g)
+	}
+	return w
+}
+
+func (w *watchRacer) burst() {
+	for _, k := range w.kick {
+		select {
+		case k <- struct{}{}:
+		default:
+		}
+	}
+}
+
+// finish stops the goroutines; with completed set, every channel they obtained must be closed.
+func (w *watchRacer) finish(completed bool) string {
+	close(w.stop)
+	w.wg.Wait()
+	if w.bad != "" || !completed {
+		return w.bad
+	}
+	w.corr.Raw() // (synchronise with the completing publication)
+	for _, l := range w.open {
+		for _, rw := range l {
+			if !closed(rw.ch) {
+				return fmt.Sprintf("Watch(%d) called concurrently with the call's progress is still open after completion", rw.lv)
+			}
+		}
+	}
+	return ""
+}
+
 func (ce *corrEngine) viol(sig, what string, detail any) { ce.g.viol("C11", sig, what, detail) }
 
 func (ce *corrEngine) run(sc CScenario, slot int) {
@@ -284,6 +371,19 @@ func (ce *corrEngine) run(sc CScenario, slot int) {
 	for lv := -1; lv <= maxL+1; lv++ {
 		persist = append(persist, corr.Watch(lv))
 	}
+	racer := newWatchRacer(corr, maxL, 2)
+	racerDone := false
+	finishRacer := func(completed bool) {
+		if racerDone {
+			return
+		}
+		racerDone = true
+		R.Count("watch_calls_racing_with_publications", racer.calls.Load())
+		if bad := racer.finish(completed); bad != "" {
+			ce.viol("racing-watch-open", bad, map[string]any{"scenario": sc})
+		}
+	}
+	defer finishRacer(false)
 	det := func(extra string) map[string]any {
 		smu.Lock()
 		defer smu.Unlock()
@@ -332,6 +432,7 @@ func (ce *corrEngine) run(sc CScenario, slot int) {
 	failedNodes := 0
 	var ctxErr error
 	endCtx := func() {
+		racer.burst()
 		ctxErr = context.Canceled
 		if sc.Deadline {
 			ctxErr = context.DeadlineExceeded
@@ -352,6 +453,7 @@ func (ce *corrEngine) run(sc CScenario, slot int) {
 		p := plans[i]
 		id := cl.IDs[i]
 		isReply := false
+		racer.burst()
 		if stream && streamPos[i] < sc.Streams[i] {
 			p.OpenStream(streamPos[i])
 			streamPos[i]++
@@ -432,6 +534,7 @@ func (ce *corrEngine) run(sc CScenario, slot int) {
 		ce.teardown(plans)
 		return
 	}
+	finishRacer(true)
 	// final snapshots
 	finals := []snap{takeSnap("final-1", corr, maxL, persist)}
 	time.Sleep(time.Millisecond)
@@ -601,7 +704,7 @@ var corrVariants = []string{"Corr", "CorrPN", "CorrCustom", "CorrCombo", "CorrSt
 // RunCorr is the engine behind C11.
 func RunCorr(e *Env) {
 	e.R.Rule = "seeded gated correctable scenarios: variant (8, incl. streams/per-node/custom type) x n x node scripts x interleaved release order of (repeated) replies and failures x level function " +
-		"(monotone, plateaus, jumps, dips, constant) x done position x ctx-end position; snapshots of raw Get, typed Get, Done and Watch(-1..max+1) are taken from inside the next QF invocation (logical time) and after completion; " +
+		"(monotone, plateaus, jumps, dips, constant) x done position x ctx-end position; snapshots of raw Get, typed Get, Done and Watch(-1..max+1) are taken from inside the next QF invocation (logical time) and after completion; two further goroutines call Watch in bursts of 3000 started just before each reply, error or context end is let through: a channel obtained this way is closed whenever Get shows its level, and after completion; " +
 		"distinct = full scenario; non-trivial = n>=2 or >=2 events"
 	e.R.Assume("a quorum function that reports done reports a level >= every earlier level (scenarios where it does not are still run; only the final-level clause uses the reported level)")
 	e.R.Assume("value on Incomplete / context end is not pinned down by the property; only level, error kind, stability and release of Done/Watch are checked then")
